@@ -163,8 +163,21 @@ def gen_lime(rng, tier):
             xs.append(x)
     mode = rng.choice(["euclidean", "euclidean", "cosine"])
     width = rng.choice([1.0, 2.0, 4.0, 8.0, 45.0, 1.5, 0.75, 3.0]) if mode == "euclidean" else rng.choice([1.0, 2.0, 0.5, 0.25, 45.0, 0.75])
+    params = fam.gen_fquad(rng, ncls, dim)
+    big = None
+    if mode == "euclidean" and rng.random() < 0.25:
+        # un-normalised inputs: large magnitude, reference value close to them, kernel width of the order of the true
+        # distances (|x - masked|^2 << |x|^2: an expanded |x|^2 + |s|^2 - 2<x,s> cancels in float32).  Linear score so
+        # that the float32 evaluation stays exact.
+        big = rng.choice([4096.0, 1024.0, -2048.0, 8192.0])
+        xs = [[big + v for v in x] for x in xs]
+        ref = [big] * c
+        width = rng.choice([1.0, 2.0, 0.75, 1.5])
+        for p in params:
+            p["X"] = []
+            p["V"] = [0] * len(p["V"])
     return dict(stream="lime", kind=kind, shape=shape, maps=maps, ref=ref, nb=nb, bs=pick_bs(rng, nb), mode=mode,
-                width=width, prob=rng.choice([0.5, 0.5, 0.3, 0.8]), params=fam.gen_fquad(rng, ncls, dim), xs=xs,
+                width=width, prob=rng.choice([0.5, 0.5, 0.3, 0.8]), params=params, xs=xs, big=big,
                 ts=fam.gen_targets(rng, n, ncls), seed=rng.randrange(1 << 30))
 
 
@@ -242,6 +255,7 @@ def distribution(cases):
                 kind=core.hist(c["kind"] for c in lk),
                 F=core.hist(case_F(c, i) for c in lk for i in range(len(c["xs"]))),
                 nb_samples=core.hist(c["nb"] // 5 * 5 for c in lk),
+                unnormalised_inputs=core.hist(str(c.get("big")) for c in lk if c["stream"] == "lime"),
                 batch_class=core.hist(("None" if c["bs"] is None else "1" if c["bs"] == 1 else "lt" if c["bs"] < c["nb"] else
                                        "eq" if c["bs"] == c["nb"] else "gt") for c in lk),
                 remainder_batch=core.hist(bool(c["bs"]) and c["nb"] % c["bs"] != 0 and c["bs"] < c["nb"] for c in lk),
